@@ -637,7 +637,26 @@ def check_param_kinds(ctx, r, tag):
                     for c in ast.walk(x):
                         if isinstance(c, ast.Call) and isinstance(c.func, ast.Attribute) and c.func.attr == "append" and isinstance(c.func.value, ast.Name):
                             kind_list.setdefault(rr.attr, []).append(c.func.value.id)
+    # table-driven: G = ((inspect.Parameter.KIND, lst), ...); for kind, group in G: if p.kind == kind: group.append(p)
+    tables = {}
+    for st in walk_scope(f.node):
+        if isinstance(st, ast.Assign) and len(st.targets) == 1 and isinstance(st.targets[0], ast.Name) and isinstance(st.value, (ast.Tuple, ast.List)) \
+                and st.value.elts and all(isinstance(e, ast.Tuple) and len(e.elts) == 2 and isinstance(e.elts[0], ast.Attribute) and e.elts[0].attr in KINDS
+                                          and isinstance(e.elts[1], ast.Name) for e in st.value.elts):
+            tables[st.targets[0].id] = [(e.elts[0].attr, e.elts[1].id) for e in st.value.elts]
+    for st in ast.walk(f.node):
+        if isinstance(st, ast.For) and isinstance(st.iter, ast.Name) and st.iter.id in tables and isinstance(st.target, ast.Tuple) and len(st.target.elts) == 2 \
+                and all(isinstance(e, ast.Name) for e in st.target.elts):
+            kv, gv = st.target.elts[0].id, st.target.elts[1].id
+            for x in ast.walk(st):
+                if isinstance(x, ast.If) and isinstance(x.test, ast.Compare) and len(x.test.ops) == 1 and isinstance(x.test.ops[0], (ast.Eq, ast.Is)) \
+                        and isinstance(x.test.left, ast.Attribute) and x.test.left.attr == "kind" and norm(x.test.comparators[0]) == kv \
+                        and any(isinstance(c, ast.Call) and isinstance(c.func, ast.Attribute) and c.func.attr == "append" and norm(c.func.value) == gv for b_ in x.body for c in ast.walk(b_)):
+                    for k_, l_ in tables[st.iter.id]:
+                        kind_list.setdefault(k_, []).append(l_)
     missing = [k for k in KINDS if k not in kind_list]
+    if missing and not kind_list:
+        raise AnalysisError(f"{tag}: how _make_fn_with_signature sorts the parameters by kind was not recognised (neither an if-chain on p.kind nor a (kind, list) table)")
     if missing:
         ctx.bad(tag, f, f.node, f"parameter kind(s) {missing} are not classified: such parameters fall into `assert False` / are dropped from the synthetic signature",
                 construct=f"kinds without a branch: {missing}")
